@@ -188,6 +188,9 @@ func (e *Engine) intrinsic(name string, args []any) any {
 	if r, ok := e.intrinsic3(name, args); ok {
 		return r
 	}
+	if r, ok := e.intrinsicDial(name, args); ok {
+		return r
+	}
 	if r, ok := e.intrinsic2(name, args); ok {
 		return r
 	}
@@ -298,7 +301,7 @@ func (e *Engine) intrinsic(name string, args []any) any {
 		lc.argNames = []string{"count", "i", "post:ret"}
 		e.cut = lc
 		return nil
-	case "AdversaryConn", "AdversaryConnMode", "AdversaryConnReset", "RogueServerConn":
+	case "AdversaryConn", "AdversaryConnMode", "AdversaryConnReset", "RogueServerConn", "RespondingServerConn":
 		return IfaceV{}
 	case "Quiesce":
 		e.quiesce()
